@@ -316,14 +316,126 @@ theorem real_decimal (nr : UInt8) (hn : nr.toNat = 2 ∨ nr.toNat = 3) (text res
   simp only [bind_ok, idx, List.length_cons]
   rcases hn with h | h <;> simp [h, sliceFrom, hf]
 
-/-- **known finding D8b** (binary REAL, X.690 8.5.7): the code rejects scale factor F = 0, which every
-canonical encoder uses: `09 03 80 00 01` is 1.0 (mantissa 1, base 2, exponent 0) and is refused;
-with F = 1 the exponent octet `ff` (= -1) is read as 255. The property does not hold for the
-binary form; the check lists it as a known finding and exercises the other forms. -/
-theorem real_binary_wrong :
-    decodeReal [0x80, 0x00, 0x01] ⟨0, false, 9, 3⟩ = .err .InvalidData ∧
-    decodeReal [0x84, 0xff, 0x01] ⟨0, false, 9, 3⟩ = .ok (.bin false 1 2 2 255) := by
-  constructor <;> decide
+/-- the exponent loop computes the two's complement value (no clamping below 2^40) -/
+theorem parseExponentLoop_accZ : ∀ (bs : Bytes) (v : Int) (M : Nat), -(M : Int) ≤ v → v < M →
+    M * 256 ^ bs.length ≤ 2 ^ 40 → parseExponentLoop bs v = accZ v bs
+  | [], _, _, _, _, _ => rfl
+  | x :: rest, v, M, h1, h2, hM => by
+    simp only [parseExponentLoop, accZ, List.foldl_cons]
+    have hx := u8_lt x
+    have hpow : M * 256 * 256 ^ rest.length ≤ 2 ^ 40 := by
+      rw [List.length_cons, Nat.pow_succ] at hM
+      rw [Nat.mul_assoc, Nat.mul_comm 256]; exact hM
+    have hpos : 1 ≤ 256 ^ rest.length := Nat.pow_pos (by omega)
+    have hM256 : M * 256 ≤ 2 ^ 40 := by
+      calc M * 256 = M * 256 * 1 := by omega
+        _ ≤ M * 256 * 256 ^ rest.length := Nat.mul_le_mul_left _ hpos
+        _ ≤ 2 ^ 40 := hpow
+    rw [if_neg (by omega)]
+    exact parseExponentLoop_accZ rest _ (M * 256) (by omega) (by omega) hpow
+
+theorem parseExponent_twos (eo : Bytes) (h3 : eo.length ≤ 4) : parseExponent eo = twos eo := by
+  cases eo with
+  | nil => rfl
+  | cons b rest =>
+    unfold parseExponent twos
+    simp only
+    have hlen : 1 * 256 ^ (b :: rest).length ≤ 2 ^ 40 := by
+      have : (b :: rest).length ≤ 4 := h3
+      have := Nat.pow_le_pow_right (n := 256) (by omega) this
+      have e : (256 : Nat) ^ 4 ≤ 2 ^ 40 := by decide
+      omega
+    by_cases hb : b.toNat < 128
+    · rw [if_neg (by omega), if_pos hb]
+      exact parseExponentLoop_accZ _ 0 1 (by omega) (by omega) hlen
+    · rw [if_pos (by omega), if_neg hb]
+      exact parseExponentLoop_accZ _ (-1) 1 (by omega) (by omega) hlen
+
+theorem parseMantissaLoop_be : ∀ (mo : Bytes) (v : Nat), mo.length ≤ 8 → v < 256 ^ (8 - mo.length) →
+    parseMantissaLoop mo v 0 false = (mo.foldl (fun a x => a * 256 + x.toNat) v, 0, false)
+  | [], _, _, _ => rfl
+  | x :: rest, v, hl, hv => by
+    simp only [List.length_cons] at hl hv
+    have h56 : v < 2 ^ 56 := by
+      have : 256 ^ (8 - (rest.length + 1)) ≤ 256 ^ 7 := Nat.pow_le_pow_right (by omega) (by omega)
+      have e : (256 : Nat) ^ 7 = 2 ^ 56 := by decide
+      omega
+    simp only [parseMantissaLoop, List.foldl_cons]
+    rw [if_pos (Nat.div_eq_of_lt h56)]
+    apply parseMantissaLoop_be rest _ (by omega)
+    have hx := u8_lt x
+    have e : 8 - rest.length = (8 - (rest.length + 1)) + 1 := by omega
+    rw [e, Nat.pow_succ]
+    generalize 256 ^ (8 - (rest.length + 1)) = X at *
+    omega
+
+theorem parseMantissa_be (mo : Bytes) (h8 : mo.length ≤ 8) : parseMantissa mo = (beNat mo, 0) := by
+  unfold parseMantissa
+  rw [parseMantissaLoop_be mo 0 h8 (Nat.pow_pos (by omega))]
+  rfl
+
+/-- first contents octet of a binary REAL (X.690 8.5.7): sign, base code, scaling factor, exponent format -/
+def realFirst (neg : Bool) (b F fmt : Nat) : Nat := 128 + (if neg then 64 else 0) + 16 * b + 4 * F + fmt
+
+/-- **binary REAL** (X.690 8.5.7, after the D8b repair): sign S, base 2 / 8 / 16 (`b` = 0 / 1 / 2),
+scaling factor F in 0..3, a two's complement exponent E of 1..3 octets and an unsigned mantissa N
+of up to 8 octets decode to `± N * 2^(E * log2(base) + F)`, i.e. exactly `S * N * 2^F * base^E`
+(the single rounding to binary64 is `SnmpReal::ldexp`, compared with exact rational arithmetic
+on every run) -/
+theorem real_binary_sound (neg : Bool) (b F : Nat) (hb : b ≤ 2) (hF : F ≤ 3) (eo mo rest : Bytes)
+    (he1 : 1 ≤ eo.length) (he3 : eo.length ≤ 3) (hm : mo.length ≤ 8) (hdr : Header)
+    (hl : hdr.length = 1 + eo.length + mo.length) :
+    decodeReal (UInt8.ofNat (realFirst neg b F (eo.length - 1)) :: (eo ++ mo) ++ rest) hdr =
+      .ok (.bin neg (beNat mo) (twos eo * (if b = 0 then 1 else if b = 1 then 3 else 4) + (F : Int) + 0)) := by
+  unfold decodeReal
+  rw [if_neg (by omega)]
+  have hfl : realFirst neg b F (eo.length - 1) < 256 := by
+    unfold realFirst; cases neg <;> simp <;> omega
+  have hfn : (UInt8.ofNat (realFirst neg b F (eo.length - 1))).toNat = realFirst neg b F (eo.length - 1) :=
+    ofNat_toNat hfl
+  have hs : sliceTo (UInt8.ofNat (realFirst neg b F (eo.length - 1)) :: (eo ++ mo) ++ rest) hdr.length
+      = .ok (UInt8.ofNat (realFirst neg b F (eo.length - 1)) :: (eo ++ mo)) := by
+    rw [sliceTo_ok (by simp; omega)]
+    have : hdr.length = (UInt8.ofNat (realFirst neg b F (eo.length - 1)) :: (eo ++ mo)).length := by
+      simp; omega
+    rw [this, take_left']
+  rw [hs]
+  simp only [bind_ok, idx]
+  have hge : realFirst neg b F (eo.length - 1) ≥ 128 := by unfold realFirst; omega
+  have hidx : (UInt8.ofNat (realFirst neg b F (eo.length - 1)) :: (eo ++ mo))[0]? =
+      some (UInt8.ofNat (realFirst neg b F (eo.length - 1))) := rfl
+  rw [hidx]
+  simp only [bind_ok, hfn]
+  rw [if_pos hge]
+  unfold decodeRealBinary realExpLayout
+  have hfmt : realFirst neg b F (eo.length - 1) % 4 = eo.length - 1 := by
+    unfold realFirst; cases neg <;> simp <;> omega
+  rw [hfmt, if_neg (by omega)]
+  simp only [bind_ok]
+  have e1 : eo.length - 1 + 1 = eo.length := by omega
+  rw [e1, if_neg (by simp only [List.length_cons, List.length_append]; omega)]
+  have hsl : slice (UInt8.ofNat (realFirst neg b F (eo.length - 1)) :: (eo ++ mo)) 1 (1 + eo.length) = .ok eo := by
+    unfold slice
+    rw [if_pos (by simp only [List.length_cons, List.length_append]; omega)]
+    rw [Nat.add_comm 1 eo.length, List.take_succ_cons]
+    simp
+  rw [hsl]
+  simp only [bind_ok]
+  have hsf : sliceFrom (UInt8.ofNat (realFirst neg b F (eo.length - 1)) :: (eo ++ mo)) (1 + eo.length) = .ok mo := by
+    rw [sliceFrom_ok (by simp only [List.length_cons, List.length_append]; omega)]
+    have : 1 + eo.length = eo.length + 1 := by omega
+    simp [this]
+  rw [hsf]
+  simp only [bind_ok, parseMantissa_be mo hm, parseExponent_twos eo (by omega)]
+  have hbase : realFirst neg b F (eo.length - 1) / 16 % 4 = b := by
+    unfold realFirst; cases neg <;> simp <;> omega
+  have hscale : realFirst neg b F (eo.length - 1) / 4 % 4 = F := by
+    unfold realFirst; cases neg <;> simp <;> omega
+  have hsign : (realFirst neg b F (eo.length - 1) / 64 % 2 = 1) = (neg = true) := by
+    unfold realFirst; cases neg <;> simp <;> omega
+  rw [hbase, hscale]
+  have hb012 : b = 0 ∨ b = 1 ∨ b = 2 := by omega
+  rcases hb012 with rfl | rfl | rfl <;> simp only [hsign] <;> cases neg <;> simp
 
 /-! ## The hypotheses are satisfiable -/
 
